@@ -59,8 +59,8 @@ Verdict(C) ==
            Fail(C.rbit, "RestBitwise"),
            Fail(nested => (~C.tnoise /\ IsIdentity(C.TP, 1)), "TruncLeftInverse"),
            Fail(~C.vnoise /\ vecOK(C.pxv), "VectorProlAgrees"),
-           Fail(vecOK(C.pxt), "TransferProlAgrees"),
-           Fail(restOK, "TransferRestAgrees") }
+           Fail(~C.xnoise /\ vecOK(C.pxt), "TransferProlAgrees"),
+           Fail(~C.rnoise /\ restOK, "TransferRestAgrees") }
 
 Info(C) == [nc |-> C.levels[1].n[C.dim + 1], nf |-> C.levels[2].n[C.dim + 1], ngc |-> C.ngc, ngf |-> C.ngf,
             nnz |-> Cardinality(Triples(C.P))]
